@@ -647,9 +647,56 @@ pub fn c18(thorough: bool) -> Vec<Part> {
     d.twin_without_kill = true;
     d.orders = Orders::AscRev;
     cfgs.push(d);
-    let _ = thorough;
+    if thorough {
+        // three clients (split request / expect / closing pair) with kill at every point
+        let mut pair2 = tagged_get(2, 0);
+        pair2.extend_from_slice(&tagged_get(2, 1));
+        let mut closer = ClientCfg::adversary(vec![pair2]);
+        closer.reads = true;
+        closer.can_shut_rd = false;
+        let mut t = SrvCfg::base(
+            "C18",
+            "three clients (split request, expect, closing pair) + kill at every point",
+            vec![ClientCfg::well_behaved(split_at(tagged_get(0, 0), 7)), ClientCfg::well_behaved(vec![tagged_expect_head(1, 0, 2), b"ok".to_vec()]), closer],
+        );
+        t.kill_switch = true;
+        t.kill_action = true;
+        t.twin_without_kill = true;
+        t.orders = Orders::Full;
+        t.max_outstanding_for_respond = 2;
+        cfgs.push(t);
+        // large responses under a minimal SO_SNDBUF (unsent output) + kill
+        let mut big = ClientCfg::well_behaved(vec![tagged_get(0, 0), tagged_get(0, 1)]);
+        big.partial_recv = true;
+        let mut u = SrvCfg::base("C18", "unsent 12 KiB output (minimal SO_SNDBUF) + kill at every point", vec![big]);
+        u.kill_switch = true;
+        u.kill_action = true;
+        u.twin_without_kill = true;
+        u.resp_sizes = vec![12000];
+        u.small_sndbuf = true;
+        u.orders = Orders::Full;
+        cfgs.push(u);
+        // at capacity with two late clients
+        let mut clients = vec![];
+        for _ in 0..9 {
+            clients.push(ClientCfg::filler());
+        }
+        for c in 9..12 {
+            let mut a = ClientCfg::adversary(vec![tagged_get(c, 0)]);
+            a.reads = true;
+            a.can_shut_rd = false;
+            a.can_shut_wr = false;
+            clients.push(a);
+        }
+        let mut v = SrvCfg::base("C18", "9 idle connections + three clients connecting/sending/closing around capacity + kill at every point", clients);
+        v.kill_switch = true;
+        v.kill_action = true;
+        v.orders = Orders::AscRev;
+        v.max_outstanding_for_respond = 2;
+        cfgs.push(v);
+    }
     for cfg in cfgs {
-        explore(&mut part, &cfg, if thorough { 3_000_000 } else { 400_000 }, if thorough { 2400.0 } else { 120.0 });
+        explore(&mut part, &cfg, if thorough { 3_000_000 } else { 400_000 }, if thorough { 900.0 } else { 120.0 });
     }
     vec![part]
 }
